@@ -151,7 +151,7 @@ def strategy(max_ops):
 
 
 def run_shard(ctx):
-    n = 400 if ctx.tier == "quick" else 4000
+    n = 400 if ctx.tier == "quick" else 15000
     max_ops = 20 if ctx.tier == "quick" else 30
 
     def body(case):
